@@ -375,9 +375,20 @@ func ruleC11R4(c *Ctx) {
 		}
 		n++
 		cl, ok := strip(rv.Val).(*ssa.Call)
-		if !ok || cl.Common().StaticCallee() == nil || !isAnchor(cl.Common().StaticCallee(), "util.CopySlice") {
-			okEC = false
+		if ok && cl.Common().StaticCallee() != nil && isAnchor(cl.Common().StaticCallee(), "util.CopySlice") {
+			continue
 		}
+		// or a message assembled in a slice made by this call (a re-slice of it)
+		v := strip(rv.Val)
+		for i := 0; i < 3; i++ {
+			if sl, isSl := v.(*ssa.Slice); isSl {
+				v = strip(sl.X)
+			}
+		}
+		if mk, isMk := v.(*ssa.MakeSlice); isMk && mk.Parent() == ec {
+			continue
+		}
+		okEC = false
 	}
 	c.check(okEC && n > 0, "C11.R4", ec, "EncodeChunk returns a copy of its reused buffer", ec.Pos(), "util.CopySlice(msgpackEncoderBuffer.Bytes())", "the encoded chunk aliases the encoder's reused buffer")
 }
@@ -518,6 +529,7 @@ func ruleC11R6(c *Ctx) {
 // value-level fact this family does not decide.
 func init() {
 	register("C11", "C11.R10", ruleC11R10)
+	register("C11", "C10.R1", ruleC10R1) // after seed c11g: the headers a chunk is framed with carry counts that fit their width
 }
 
 func ruleC11R10(c *Ctx) {
